@@ -139,3 +139,60 @@ for _p in range(3):
     _f = _mk_fail_race(_p)
     globals()[_f.__name__] = _f
 del _f, _p
+
+
+# ------------------------------------------------------------------------------------------------ F3: failure delivered inside a map/parallel branch
+from harness import exec_world as XW  # noqa: E402
+from aws_durable_execution_sdk_python.config import CompletionConfig  # noqa: E402
+
+ASSUMPTIONS = ASSUMPTIONS + XW.ASSUMPTIONS_EXEC
+XFUNCS = ["concurrency.executor.ConcurrentExecutor.execute/_on_task_complete/should_execution_suspend", "concurrency.models.ExecutableWithState.*"]
+
+
+def _mk_branch_failure(n):
+    def lem(which: int, o1: int, o2: int, tol: bool, c0: int, c1: int):
+        """
+        pre: 0 <= which < 3 and 0 <= o1 < 3 and 0 <= o2 < 3 and 0 <= c0 < 3 and 0 <= c1 < 3
+        post: True
+        """
+        if which >= n:
+            return
+        others = [o1, o2]
+        beh, never = [], []
+        j = 0
+        for i in range(n):
+            if i == which:
+                beh.append(("bgerr",))
+                continue
+            k = others[j]
+            j += 1
+            if k == 0:
+                beh.append(("ok", i))
+            elif k == 1:
+                beh.append(("park",))
+            else:
+                beh.append(("ok", i))
+                never.append(i)
+        script = XW.Script(beh)
+        world = XW.World(choices=[c0, c1], never=never)
+        ex = XW.make_executor(script, False, CompletionConfig(tolerated_failure_count=n) if tol else CompletionConfig(), None)
+        (kind, val), st = XW.run_execute(ex, world)
+        if script.entries[which] == 0:
+            h.end()      # the failing branch never ran (the policy was decided before): nothing to check here
+            return
+        h.reach("failure_delivered")
+        h.check(kind != "deadlock", "a checkpoint failure raised inside a branch leaves execute() blocked forever (the invocation hangs)")
+        h.check(not (kind == "ret"), "map/parallel returned a result although a branch was woken with a checkpoint failure")
+        h.check(kind == "raise" and isinstance(val, BackgroundThreadError), "the checkpoint failure must propagate out of map/parallel (fail-stop), not turn into PENDING or a result")
+        h.end()
+
+    lem.__name__ = lem.__qualname__ = f"branch_checkpoint_failure_{n}"
+    return h.lemma(timeout=400, thorough_timeout=1200, funcs=XFUNCS, reach=("end", "failure_delivered"),
+                   bounds=f"parallel with {n} branches: one branch (any position) is woken with BackgroundThreadError, the others succeed / park / never finish; "
+                          "failures tolerated or fail-fast; completion order solver-chosen")(lem)
+
+
+for _n in (1, 2, 3):
+    _f = _mk_branch_failure(_n)
+    globals()[_f.__name__] = _f
+del _f, _n
